@@ -20,6 +20,10 @@ TECH = {
     "C03": "Verus function contracts on extracted kernels + row obligations + Kani full-domain contracts",
     "C04": "Kani contracts: full-domain kernels, bounded parser-vs-reference-scanner",
     "C05": "Verus closed-fact obligations per radix row",
+    "C09": "Verus in-bounds + frame obligations on extracted writers; Kani pointer checks on the real unsafe code",
+    "C12": "Kani bounded contracts: tokenizer vs reference grammar per instantiated flag set",
+    "C15": "Kani bounded contracts: special matcher vs reference; full-domain kernel contract",
+    "C19": "Kani relational contract on the Lemire kernel",
     "C10": "Kani: memory-safety/panic/unwinding checks of every parser harness",
     "C11": "Kani relational harnesses",
     "C16": "same contracts discharged per feature set",
